@@ -51,6 +51,33 @@ impl Problem {
     pub fn to_json(&self) -> Value {
         json!({"P": csc_json(&self.P), "q": self.q, "A": csc_json(&self.A), "b": self.b, "cones": cones_json(&self.cones)})
     }
+    /// inverse of `to_json` (non-finite entries, written as null, come back as +inf)
+    pub fn from_json(v: &Value) -> Option<Problem> {
+        let fv = |x: &Value| -> Option<Vec<f64>> { Some(x.as_array()?.iter().map(|e| e.as_f64().unwrap_or(f64::INFINITY)).collect()) };
+        let uv = |x: &Value| -> Option<Vec<usize>> { x.as_array()?.iter().map(|e| e.as_u64().map(|u| u as usize)).collect() };
+        let csc = |x: &Value| -> Option<CscMatrix<f64>> {
+            Some(CscMatrix { m: x["m"].as_u64()? as usize, n: x["n"].as_u64()? as usize, colptr: uv(&x["colptr"])?, rowval: uv(&x["rowval"])?, nzval: fv(&x["nzval"])? })
+        };
+        let mut cones = vec![];
+        for c in v["cones"].as_array()? {
+            if c.as_str() == Some("Exp") {
+                cones.push(ConeT::ExponentialConeT());
+                continue;
+            }
+            let (k, val) = c.as_object()?.iter().next()?;
+            cones.push(match k.as_str() {
+                "Zero" => ConeT::ZeroConeT(val.as_u64()? as usize),
+                "NN" => ConeT::NonnegativeConeT(val.as_u64()? as usize),
+                "SOC" => ConeT::SecondOrderConeT(val.as_u64()? as usize),
+                "Pow" => ConeT::PowerConeT(val.as_f64()?),
+                "GenPow" => ConeT::GenPowerConeT(fv(&val[0])?, val[1].as_u64()? as usize),
+                #[cfg(feature = "sdp")]
+                "PSD" => ConeT::PSDTriangleConeT(val.as_u64()? as usize),
+                _ => return None,
+            });
+        }
+        Some(Problem { P: csc(&v["P"])?, q: fv(&v["q"])?, A: csc(&v["A"])?, b: fv(&v["b"])?, cones })
+    }
     pub fn hash(&self) -> u64 {
         let mut h = crate::report::hash_new();
         crate::report::hash_f64s(&mut h, &self.P.nzval);
